@@ -12,6 +12,7 @@ import (
 	"strconv"
 	"strings"
 	"testing/fstest"
+	"time"
 	"unicode/utf8"
 
 	"github.com/open2b/scriggo"
@@ -444,6 +445,285 @@ func oracle(files []file, pages []int, withTestFS bool) (clause string, ops []op
 	return "", nil, ""
 }
 
+
+// ---- the oracle across time and handles ----------------------------------------------------------
+//
+// "stat-ing gives consistent results", evaluated on the real Files alone (no model): an operation
+// sequence is executed and after EVERY operation (a "moment")
+//   * for every open handle, Stat().{Name,Size,Mode,IsDir,ModTime,Sys} equals fs.Stat(fsys, name)
+//     taken on a fresh handle (stat-independent-of-handle-state) and the Info() of the entry the
+//     parent directory lists for it on a fresh handle (stat-agrees-with-parent-entry); for a regular
+//     file Size() == len(content) == number of bytes a fresh handle delivers up to EOF
+//     (size-equals-content-length);
+//   * every FileInfo / DirEntry value obtained earlier (right after Open, by a Stat operation, by a
+//     ReadDir operation) still reports what it reported when it was obtained
+//     (returned-info-immutable).
+
+type snap struct {
+	name  string
+	size  int64
+	mode  fs.FileMode
+	isDir bool
+	mt    time.Time
+	sys   bool
+}
+
+func snapOf(i fs.FileInfo) snap {
+	return snap{i.Name(), i.Size(), i.Mode(), i.IsDir(), i.ModTime(), i.Sys() != nil}
+}
+
+func (a snap) eq(b snap) bool {
+	return a.name == b.name && a.size == b.size && a.mode == b.mode && a.isDir == b.isDir && a.mt.Equal(b.mt) && a.sys == b.sys
+}
+
+func (a snap) String() string {
+	mt := "zero"
+	if !a.mt.IsZero() {
+		mt = a.mt.UTC().Format(time.RFC3339Nano)
+	}
+	return fmt.Sprintf("(Name %q, Size %d, Mode %s, IsDir %v, ModTime %s)", a.name, a.size, modeStr(a.mode), a.isDir, mt)
+}
+
+type heldInfo struct {
+	info  fs.FileInfo
+	entry fs.DirEntry // nil for the result of a Stat
+	was   snap
+	from  string
+}
+
+// timeline runs ops on the real Files and evaluates the clauses above at every moment. at is the
+// index of the operation after which the first clause failed.
+func timeline(files []file, ops []op) (clause string, at int, detail string) {
+	at = -1
+	defer func() {
+		if x := recover(); x != nil {
+			clause, detail = "panics", fmt.Sprint(x)
+		}
+	}()
+	fsys := mkFiles(files)
+	content := map[string][]byte{}
+	for _, f := range files {
+		content[f.name] = f.data
+	}
+	type hnd struct {
+		f      fs.File
+		name   string
+		closed bool
+	}
+	var hs []hnd
+	var held []heldInfo
+	check := func(k int) (string, string) {
+		for i, h := range hs {
+			if h.closed {
+				continue
+			}
+			st, err := h.f.Stat()
+			if err != nil {
+				return "stat-of-open-handle", fmt.Sprintf("h%d.Stat() of %q: %v", i, h.name, err)
+			}
+			got := snapOf(st)
+			fi, err := fs.Stat(fsys, h.name)
+			if err != nil {
+				return "stat-independent-of-handle-state", fmt.Sprintf("fs.Stat(fsys, %q): %v", h.name, err)
+			}
+			if want := snapOf(fi); !got.eq(want) {
+				return "stat-independent-of-handle-state", fmt.Sprintf("after operation #%d: h%d.Stat() = %s, but fs.Stat(fsys, %q) on a fresh handle = %s", k+1, i, got, h.name, want)
+			}
+			if h.name != "." {
+				es, err := fs.ReadDir(fsys, path.Dir(h.name))
+				if err != nil {
+					return "stat-agrees-with-parent-entry", fmt.Sprintf("fs.ReadDir(fsys, %q): %v", path.Dir(h.name), err)
+				}
+				found := false
+				for _, e := range es {
+					if e.Name() != path.Base(h.name) {
+						continue
+					}
+					found = true
+					info, err := e.Info()
+					if err != nil {
+						return "stat-agrees-with-parent-entry", err.Error()
+					}
+					if want := snapOf(info); !got.eq(want) || e.IsDir() != got.isDir || e.Type() != got.mode.Type() {
+						return "stat-agrees-with-parent-entry", fmt.Sprintf("after operation #%d: h%d.Stat() = %s, but the entry of %q in fs.ReadDir(fsys, %q) has Info() = %s, IsDir %v, Type %s", k+1, i, got, h.name, path.Dir(h.name), want, e.IsDir(), modeStr(e.Type()))
+					}
+				}
+				if !found {
+					return "stat-agrees-with-parent-entry", fmt.Sprintf("%q is open but not listed by fs.ReadDir(fsys, %q)", h.name, path.Dir(h.name))
+				}
+			}
+			if data, isFile := content[h.name]; isFile {
+				b, err := fs.ReadFile(fsys, h.name)
+				if err != nil || got.size != int64(len(data)) || len(b) != len(data) {
+					return "size-equals-content-length", fmt.Sprintf("after operation #%d: h%d.Stat().Size() = %d, len(content) = %d, a fresh handle of %q delivers %d bytes (%v)", k+1, i, got.size, len(data), h.name, len(b), err)
+				}
+			}
+		}
+		for _, h := range held {
+			now := snapOf(h.info)
+			if !now.eq(h.was) {
+				return "returned-info-immutable", fmt.Sprintf("the FileInfo from %s reported %s; after operation #%d the same value reports %s", h.from, h.was, k+1, now)
+			}
+			if h.entry != nil {
+				info, err := h.entry.Info()
+				if err != nil {
+					return "returned-info-immutable", fmt.Sprintf("the DirEntry from %s: Info() after operation #%d: %v", h.from, k+1, err)
+				}
+				if now := snapOf(info); !now.eq(h.was) || h.entry.Name() != h.was.name || h.entry.IsDir() != h.was.isDir || h.entry.Type() != h.was.mode.Type() {
+					return "returned-info-immutable", fmt.Sprintf("the DirEntry from %s reported %s; after operation #%d it reports %s, Name %q, IsDir %v, Type %s", h.from, h.was, k+1, now, h.entry.Name(), h.entry.IsDir(), modeStr(h.entry.Type()))
+				}
+			}
+		}
+		return "", ""
+	}
+	for k, o := range ops {
+		if o.kind != 'o' && (o.h < 0 || o.h >= len(hs)) {
+			continue
+		}
+		switch o.kind {
+		case 'o':
+			f, err := fsys.Open(o.name)
+			if err != nil {
+				continue
+			}
+			hs = append(hs, hnd{f: f, name: o.name})
+			if st, err := f.Stat(); err == nil {
+				held = append(held, heldInfo{info: st, was: snapOf(st), from: fmt.Sprintf("h%d.Stat() right after Open(%q) (operation #%d)", len(hs)-1, o.name, k+1)})
+			}
+		case 'd':
+			if d, ok := hs[o.h].f.(fs.ReadDirFile); ok {
+				es, _ := d.ReadDir(o.n)
+				for _, e := range es {
+					if info, err := e.Info(); err == nil {
+						held = append(held, heldInfo{info: info, entry: e, was: snapOf(info), from: fmt.Sprintf("h%d.ReadDir(%d) (operation #%d), entry %q", o.h, o.n, k+1, e.Name())})
+					}
+				}
+			}
+		case 's':
+			if st, err := hs[o.h].f.Stat(); err == nil && !hs[o.h].closed {
+				held = append(held, heldInfo{info: st, was: snapOf(st), from: fmt.Sprintf("h%d.Stat() (operation #%d)", o.h, k+1)})
+			}
+		case 'r':
+			hs[o.h].f.Read(make([]byte, o.n))
+		case 'c':
+			hs[o.h].f.Close()
+			hs[o.h].closed = true
+		}
+		if cl, det := check(k); cl != "" {
+			return cl, k, det
+		}
+	}
+	return "", -1, ""
+}
+
+// opened tells for every operation whether it is an Open that succeeded on the real Files.
+func opened(files []file, ops []op) []bool {
+	outs := runReal(files, ops)
+	ok := make([]bool, len(ops))
+	for i := range ops {
+		ok[i] = ops[i].kind == 'o' && i < len(outs) && strings.HasPrefix(outs[i], "h")
+	}
+	return ok
+}
+
+// dropOp removes operation i; if it is a successful Open, the operations on its handle go too
+// and the later handles are renumbered.
+func dropOp(files []file, ops []op, i int) []op {
+	ok := opened(files, ops)
+	hidx := -1
+	if ok[i] {
+		hidx = 0
+		for j := 0; j < i; j++ {
+			if ok[j] {
+				hidx++
+			}
+		}
+	}
+	var out []op
+	for j, o := range ops {
+		if j == i {
+			continue
+		}
+		if hidx >= 0 && o.kind != 'o' {
+			if o.h == hidx {
+				continue
+			}
+			if o.h > hidx {
+				o.h--
+			}
+		}
+		out = append(out, o)
+	}
+	return out
+}
+
+// shrinkTimeline: the shortest prefix, then single operations, files, contents and read sizes,
+// keeping the clause that failed.
+func shrinkTimeline(files []file, ops []op, clause string) ([]file, []op) {
+	failing := func(fl []file, os []op) bool {
+		if !wellFormed(fl) {
+			return false
+		}
+		cl, _, _ := timeline(fl, os)
+		return cl == clause
+	}
+	if _, at, _ := timeline(files, ops); at >= 0 {
+		ops = append([]op(nil), ops[:at+1]...)
+	}
+	for progress := true; progress; {
+		progress = false
+		for i := len(ops) - 1; i >= 0; i-- {
+			c := dropOp(files, ops, i)
+			if failing(files, c) {
+				ops, progress = c, true
+				break
+			}
+		}
+	}
+	// a file that an Open names must stay: renaming would change the sequence's meaning
+	files = shrinkFiles(files, func(fl []file) bool { return failing(fl, ops) })
+	for i := range ops {
+		if (ops[i].kind == 'r' || ops[i].kind == 'd') && ops[i].n > 1 {
+			c := append([]op(nil), ops...)
+			c[i].n = 1
+			if failing(files, c) {
+				ops = c
+			}
+		}
+	}
+	return files, ops
+}
+
+// the operations of the family: every pair of them is applied to two handles of the same name
+var famAlpha = []op{{kind: 's'}, {kind: 'r', n: 0}, {kind: 'r', n: 1}, {kind: 'r', n: 3}, {kind: 'r', n: 100}, {kind: 'd', n: 1}, {kind: 'd', n: -1}, {kind: 'c'}}
+
+// family: for a name, Open it twice and apply every pair (a, b) of famAlpha, a to the first handle
+// and b to the first or the second; the clauses are evaluated at every moment on both handles.
+func family(name string) [][]op {
+	var out [][]op
+	for _, a := range famAlpha {
+		for _, b := range famAlpha {
+			for hb := 0; hb < 2; hb++ {
+				a.h, b.h = 0, hb
+				out = append(out, []op{{kind: 'o', name: name}, {kind: 'o', name: name}, a, b})
+			}
+		}
+	}
+	return out
+}
+
+func allNames(files []file) []string {
+	var names []string
+	for d := range refTree(files) {
+		names = append(names, d)
+	}
+	for _, f := range files {
+		names = append(names, f.name)
+	}
+	sort.Strings(names)
+	return names
+}
+
 func firstLines(s string, n int) string {
 	l := strings.Split(s, "\n")
 	if len(l) > n {
@@ -659,8 +939,9 @@ type pending struct {
 }
 
 type runner struct {
-	c    *hx.Ctx
-	pend []pending
+	c     *hx.Ctx
+	pend  []pending
+	tlRep map[string]int // timeline clause -> failing inputs reported (the first three are shrunk)
 }
 
 func (r *runner) correspond(files []file, ops []op) {
@@ -734,9 +1015,48 @@ func (r *runner) property(files []file, pages []int, withTestFS bool) {
 		Human: humanCase(min, ops) + "  -- " + detail, Impl: impl, Model: model})
 }
 
+// timeline evaluates the oracle across time and handles on one sequence; a failure is shrunk and
+// reported as a failing input of the property.
+func (r *runner) timeline(files []file, ops []op) {
+	clause, _, _ := timeline(files, ops)
+	if clause == "" {
+		return
+	}
+	if r.tlRep == nil {
+		r.tlRep = map[string]int{}
+	}
+	r.tlRep[clause]++
+	r.c.Res.Hist("timeline-fails:" + clause)
+	if r.tlRep[clause] > 3 {
+		return
+	}
+	mf, mo := shrinkTimeline(files, ops, clause)
+	_, _, detail := timeline(mf, mo)
+	// make the moment visible in the recorded answers: Stat every handle at the end
+	nh := 0
+	for _, ok := range opened(mf, mo) {
+		if ok {
+			mo = append(mo, op{kind: 's', h: nh})
+			nh++
+		}
+	}
+	impl := "ok"
+	for _, o := range runReal(mf, mo) {
+		impl += " " + o
+	}
+	model := "(the clause " + clause + " holds: stat_independent_of_handle_state)"
+	if r.c.D != nil {
+		if m, err := r.c.D.Ask(encCase(mf, mo)); err == nil {
+			model = m
+		}
+	}
+	r.c.Res.AddBreak(proto.Break{Kind: "property", Name: clause, Case: encCase(mf, mo),
+		Human: humanCase(mf, mo) + "  -- " + detail, Impl: impl, Model: model})
+}
+
 func run(c *hx.Ctx) error {
 	res := c.Res
-	res.Rule = "random maps of ≤ 8 (sometimes 30) slash paths over 14 path elements (dots, dashes, 2- and 3-byte UTF-8), depth ≤ 5, contents empty/1 byte/random; 10% malformed maps (name both file and directory, invalid names) used for the correspondence only; per map one random sequence of 10–50 Open/ReadDir(n)/Stat/Read(k)/Close operations (names: files, directories, missing and invalid paths; n in -7…100) compared with the model, and on well-formed maps the oracle: fstest.TestFS plus the direct clauses with random page sizes; non-trivial: maps with at least one directory below the root; distinct by map+operations"
+	res.Rule = "random maps of ≤ 8 (sometimes 30) slash paths over 14 path elements (dots, dashes, 2- and 3-byte UTF-8), depth ≤ 5, contents empty/1 byte/random; 10% malformed maps (name both file and directory, invalid names) used for the correspondence only; per map one random sequence of 10–50 Open/ReadDir(n)/Stat/Read(k)/Close operations (names: files, directories, missing and invalid paths; n in -7…100) compared with the model, and on well-formed maps the oracle: fstest.TestFS plus the direct clauses with random page sizes, and the oracle across time and handles (after every operation of the same sequence, and of the family {two handles of one name} x {pairs of Stat/Read 0,1,3,100/ReadDir 1,-1/Close} for the names of every 10th map: Stat of every open handle = fs.Stat on a fresh handle = the parent's entry Info, Size = len(content) = bytes a fresh handle delivers, every FileInfo/DirEntry returned earlier still reports the same); non-trivial: maps with at least one directory below the root; distinct by map+operations"
 	r := &runner{c: c}
 
 	if c.Replay != "" {
@@ -771,6 +1091,7 @@ func run(c *hx.Ctx) error {
 			r.correspond(files, ops)
 			if wellFormed(files) {
 				r.property(files, []int{1, 2}, true)
+				r.timeline(files, ops)
 			}
 			if err := r.flush(); err != nil {
 				return err
@@ -785,6 +1106,25 @@ func run(c *hx.Ctx) error {
 		{kind: 'o', name: "d"}, {kind: 'd', h: 1, n: 1}, {kind: 'd', h: 1, n: 1}, {kind: 'd', h: 1, n: 1}, {kind: 's', h: 1},
 		{kind: 'o', name: "a.txt"}, {kind: 's', h: 2}, {kind: 'r', h: 2, n: 4}, {kind: 'r', h: 2, n: 4}, {kind: 'c', h: 2}, {kind: 'r', h: 2, n: 4}})
 
+	runFamily := func(files []file) {
+		names := allNames(files)
+		if len(names) > 6 {
+			for i := len(names) - 1; i > 0; i-- {
+				j := c.R.Intn(i + 1)
+				names[i], names[j] = names[j], names[i]
+			}
+			names = names[:6]
+		}
+		for _, n := range names {
+			for _, ops := range family(n) {
+				r.timeline(files, ops)
+				res.Count("T "+encCase(files, ops), true)
+				res.Hist("timeline-family")
+			}
+		}
+	}
+	runFamily(three)
+
 	for i := 0; i < c.N(3000, 60000); i++ {
 		files := genFiles(c)
 		ops := genOps(c, files)
@@ -793,6 +1133,11 @@ func run(c *hx.Ctx) error {
 		if wf {
 			pages := []int{1 + c.R.Intn(3), 1 + c.R.Intn(4), 1 + c.R.Intn(2)}
 			r.property(files, pages, true)
+			r.timeline(files, ops)
+			res.Hist("timeline-random")
+			if i%10 == 0 {
+				runFamily(files)
+			}
 			res.Hist("well-formed-map")
 		} else {
 			res.Hist("malformed-map")
